@@ -314,48 +314,9 @@ def run(ctx: Ctx) -> None:
         okv = v is not None and CFG(v.node).every_path_to_exit_passes(calls_any({"_check_assign"}))
         ctx.check(bool(okv), "R-C24.4", f"{checker.qualname}.visit_{k}", v.where if v else checker.where, {"reaches__check_assign": bool(okv)},
                   f"`{k}` statements inside a dagger context are not rejected by the per-block pass")
-    for meth, extra_atom in (("_check_assign", None), ("visit_PlaceNode", "contains_subscript")):
-        f = checker.methods.get(meth)
-        if f is None:
-            raise AnalysisError(f"BBUnitaryChecker.{meth} vanished")
-        bad = []
-        und = None
-        from ..absint.astmodel import VisitorEval
-        from ..absint.pyeval import Raised as _Raised, Tok as _Tok
-        ps_ = [a.arg for a in f.node.args.args]
-        for F in dom.all_values():
-            for sub, has_value in itertools.product((False, True) if extra_atom else (True,), (True, False) if meth == "_check_assign" else (True,)):
-                visited: list = []
-                value = _Tok("rhs", __ident__=1)
-                me_ = _Tok("checker", flags=F, __classes__=checker.mro(), __ident__=1)
-                me_.attrs["__methods__"] = {"visit": lambda r, a, visited=visited: visited.append(a[0])}
-                nd_ = _Tok("node", value=value if has_value else None, place=_Tok("place"), __ident__=1)
-                env = {ps_[0]: me_, ps_[1]: nd_, "InvalidUnderDagger": lambda node, e, en: _Tok("InvalidUnderDagger"), "UnsupportedError": lambda node, e, en: _Tok("UnsupportedError")}
-                if extra_atom:
-                    env[extra_atom] = lambda node, e, en, sub=sub: (_Tok("subscript", __truth__=True) if sub else None)
-                try:
-                    try:
-                        out = VisitorEval(idx, f.module.name, flags=dom).run(f.node.body, env)
-                    except _Raised as e:
-                        out = ("raise", e.cls or str(e))
-                except Unsupported as e:
-                    und = str(e)
-                    break
-                raised = out[0] == "raise"
-                want_raise = bool(F.bits & D) and sub
-                if raised != want_raise or (raised and "GuppyError" not in str(out[1])):
-                    bad.append({"flags": F.bits, "subscript": sub, "raises": raised, "should_raise": want_raise})
-                elif not raised and meth == "_check_assign" and visited != ([value] if has_value else []):
-                    bad.append({"flags": F.bits, "assigned_value_present": has_value, "value_visited": bool(visited),
-                                "problem": "the assigned value is not visited: calls on the right-hand side escape the flag check"})
-            if und:
-                break
-        key = f"{f.qualname}#raises-iff-dagger"
-        if und:
-            ctx.undecided("R-C24.4", key, f.where, und)
-        else:
-            ctx.check(not bad, "R-C24.4", key, f.where, {"counterexamples": bad[:4]},
-                      f"{meth} does not reject exactly the dagger contexts")
+    from . import c24_block
+    if not c24_block.run(ctx, dom):
+        _per_block_fallback(ctx, idx, checker, dom, D)
 
     # ------------------------------------------------------------ R-C24.5 metadata
     for fn_name, hint in (("monomorphize", "guppylang_internals.definition.function"), ("compile_modified_block", "guppylang_internals.compiler.modifier_compiler")):
@@ -482,3 +443,50 @@ def _under_dagger_kinds(node: ast.AST) -> set[str]:
             kinds.add(n.args[1].value)
     has_raise = any(isinstance(n, ast.Raise) for n in ast.walk(node))
     return kinds if has_raise else set()
+
+
+def _per_block_fallback(ctx, idx, checker, dom, D) -> None:
+    """The two per-block methods interpreted one by one on flat tokens (used when the whole visitor cannot be interpreted)."""
+    if True:
+        for meth, extra_atom in (("_check_assign", None), ("visit_PlaceNode", "contains_subscript")):
+            f = checker.methods.get(meth)
+            if f is None:
+                raise AnalysisError(f"BBUnitaryChecker.{meth} vanished")
+            bad = []
+            und = None
+            from ..absint.astmodel import VisitorEval
+            from ..absint.pyeval import Raised as _Raised, Tok as _Tok
+            ps_ = [a.arg for a in f.node.args.args]
+            for F in dom.all_values():
+                for sub, has_value in itertools.product((False, True) if extra_atom else (True,), (True, False) if meth == "_check_assign" else (True,)):
+                    visited: list = []
+                    value = _Tok("rhs", __ident__=1)
+                    me_ = _Tok("checker", flags=F, __classes__=checker.mro(), __ident__=1)
+                    me_.attrs["__methods__"] = {"visit": lambda r, a, visited=visited: visited.append(a[0])}
+                    nd_ = _Tok("node", value=value if has_value else None, place=_Tok("place"), __ident__=1)
+                    env = {ps_[0]: me_, ps_[1]: nd_, "InvalidUnderDagger": lambda node, e, en: _Tok("InvalidUnderDagger"), "UnsupportedError": lambda node, e, en: _Tok("UnsupportedError")}
+                    if extra_atom:
+                        env[extra_atom] = lambda node, e, en, sub=sub: (_Tok("subscript", __truth__=True) if sub else None)
+                    try:
+                        try:
+                            out = VisitorEval(idx, f.module.name, flags=dom).run(f.node.body, env)
+                        except _Raised as e:
+                            out = ("raise", e.cls or str(e))
+                    except Unsupported as e:
+                        und = str(e)
+                        break
+                    raised = out[0] == "raise"
+                    want_raise = bool(F.bits & D) and sub
+                    if raised != want_raise or (raised and "GuppyError" not in str(out[1])):
+                        bad.append({"flags": F.bits, "subscript": sub, "raises": raised, "should_raise": want_raise})
+                    elif not raised and meth == "_check_assign" and visited != ([value] if has_value else []):
+                        bad.append({"flags": F.bits, "assigned_value_present": has_value, "value_visited": bool(visited),
+                                    "problem": "the assigned value is not visited: calls on the right-hand side escape the flag check"})
+                if und:
+                    break
+            key = f"{f.qualname}#raises-iff-dagger"
+            if und:
+                ctx.undecided("R-C24.4", key, f.where, und)
+            else:
+                ctx.check(not bad, "R-C24.4", key, f.where, {"counterexamples": bad[:4]},
+                          f"{meth} does not reject exactly the dagger contexts")
